@@ -105,6 +105,15 @@ CLAIMS = {
              'whole session snapshot is restored on every raising path.',
         note='One injected callee failure per path (not combinations); callee contract "raises => changed nothing" (proved for index functions in C11). Scenario set and model are fixed; '
              'histories of several failing calls are not covered.'),
+    'C12': dict(
+        category='other',
+        text='BOUNDED stand-in (never counted as proved): contracts stated on the real reverse-side functions and checked for every combination of per-object collection '
+             'states for objects of length <= 3/4 (Set.reverse_add / reverse_remove incl. do;undo == identity, db_reverse_add / db_reverse_remove incl. the phantom refusal), '
+             'and both-ends agreement of the whole session (every pair of reverse attributes, every pair of loaded objects) after each of 30 modification scenarios on a model '
+             'with one-to-one (required and optional), many-to-one, many-to-many and cascade relationships, on success and on every raising path incl. injected callee failures.',
+        note='No unbounded obligation: the quantifier over all histories is outside the technique; K objects per call and the scenario set are the bounds. Recursive maintenance through '
+             '__set__ / _delete_ is exercised only by the scenarios.',
+        technique='contracts on real functions, bounded exhaustive state enumeration (contract-based family, bounded stand-in)'),
 }
 
 _NOT_BUILT = 'within reach of the technique per DESIGN.md, check not built yet'
